@@ -28,8 +28,7 @@ theorem encodeAttrs_four (p : Profile) (attrs : List Attr) (acc : Nat)
       rw [attr_encode a (attrOk_kind a ha) (attrOk_len a ha)]
       simp only [Out.bind_ok, Out.pure_eq, addLens]
       have hm : (encRaw (rawOf a)).length % 65536 = (encRaw (rawOf a)).length := Nat.mod_eq_of_lt (by omega)
-      rw [hm, addU16_ok p _ _ (by omega)]
-      simp only [Out.bind_ok, Out.pure_eq]
+      rw [hm]
       rw [ih _ (fun x hx => h x (by simp [hx])) (by omega)]
       simp only [Out.bind_ok, Out.pure_eq]
       simp [attrBlock4]
@@ -46,25 +45,25 @@ theorem doEncode_reach_legacy (p : Profile) (c : Codec) (attrs : List Attr) (es0
     (a : Bytes) (ab : Bytes)
     (hleg : c.extNh = false) (ha : a.length = 4)
     (hattrs : encodeAttrs p c.twoByte attrs 0 = .ok (ab, ab.length))
-    (hlen : ab.length + 7 < 65536) (henc : EncOk es) (hne : es ≠ []) :
-    doEncode p c (.reach Fam.ipv4 (some (.v4 a)) attrs es0) es =
+    (henc : EncOk es) (hne : es ≠ [])
+    (hpos : fitN c.maxLen 0 (c.addpathTx Fam.ipv4) (23 + (ab.length + 7)) es ≠ 0) :
+    doEncodeBody p c (.reach Fam.ipv4 (some (.v4 a)) attrs es0) es =
       .ok (frame 2 ([0, 0] ++ be16 (ab.length + 7) ++ (ab ++ encRaw (nhRaw a)) ++
-             (es.take (fitN c.maxLen (5 + ap4 (c.addpathTx Fam.ipv4)) (c.addpathTx Fam.ipv4) (23 + (ab.length + 7)) es)).flatMap
+             (es.take (fitN c.maxLen 0 (c.addpathTx Fam.ipv4) (23 + (ab.length + 7)) es)).flatMap
                (encE (c.addpathTx Fam.ipv4))),
-           fitN c.maxLen (5 + ap4 (c.addpathTx Fam.ipv4)) (c.addpathTx Fam.ipv4) (23 + (ab.length + 7)) es) := by
+           fitN c.maxLen 0 (c.addpathTx Fam.ipv4) (23 + (ab.length + 7)) es) := by
   have hemp : es.isEmpty = false := by cases es <;> simp_all
   have hnh : (Attr.mk 3 64 (.bin a)).encode = .ok (encRaw (nhRaw a), 7) := by
     have := attr_encode (Attr.mk 3 64 (.bin a)) (by simp [kindOk, AData.binary?]) (by simp [wireValue, ha])
     rw [this]
     simp [rawOf, wireValue, ha, nhRaw, encRaw, lenField, hasExt]
   have hnl : (encRaw (nhRaw a)).length = 7 := by simp [encRaw, nhRaw, lenField, hasExt, ha]
-  unfold doEncode
+  unfold doEncodeBody
   simp only [hattrs, Out.bind_ok, hleg, Bool.not_false, and_true, if_true, hemp, Bool.false_eq_true, if_false,
     Option.bind, Nh.v4?, hnh, Out.pure_eq]
-  rw [addU16_ok p _ _ (by omega)]
   simp only [Out.bind_ok, Out.pure_eq, List.length_append, hnl]
-  rw [fitLoop_eq _ _ _ _ _ henc]
-  simp only [Out.bind_ok, Out.pure_eq, ap4]
+  rw [putEntries_eq _ _ _ _ _ henc (fun _ => hpos)]
+  simp only [Out.bind_ok, Out.pure_eq]
 
 /-! ### decoding IPv4 / IPv6 regions -/
 
